@@ -238,13 +238,16 @@ def head_end_mutants(text: str, span=None, extra=()):
             yield ("end-append-nl:" + a, last, base + "\n" + a + "\n")
 
 
-def header_line_mutants(header: str):
+def header_line_mutants(header: str, first_line: int = 0):
+    """`first_line`: lines in front of it are padding of the corpus program and are not edited themselves"""
     lines = header.split("\n")
 
     def join(ls):
         return "\n".join(ls)
 
     for n, ln in enumerate(lines):
+        if n < first_line:
+            continue
         yield ("line-delete", n, join(lines[:n] + lines[n + 1:]))
         yield ("line-duplicate", n, join(lines[:n + 1] + lines[n:]))
         if n + 1 < len(lines):
